@@ -143,14 +143,21 @@ def run_config(ctx, rep, cfg, F):
             if pw:
                 rep.bad("R18.2", short, "prefix-overwritten", "%s is a value-only operation but writes a stored prefix: %s" % (short, [repr(e) for e in pw]), config=cfg)
         rep.ok("R18.2", short, "never writes a prefix")
-    # MIR cross-check: functions that assign Node::prefix
+    # MIR cross-check (coverage, fail closed): every function that assigns Node::prefix was interpreted by a rule above
     writers = C.mir_writers(F, C.NODE, "prefix", hows=("assign",))
-    allowed = {"PrefixMap::insert", "VacantEntry::_insert", "OccupiedEntry::insert", "PrefixMap::new_node"}
+    entered = set()
+    for key, paths in ctx._paths.items():
+        if key[0] == cfg:
+            entered |= C.functions_entered(paths)
+            if isinstance(key[1], str):
+                entered.add(key[1].split(";")[-1])
     for w in writers:
-        if w.split("::{closure")[0] not in allowed:
-            rep.bad("R18.2", w, "unlisted-prefix-writer", "%s assigns Node::prefix but is not one of %s" % (w, sorted(allowed)), config=cfg)
+        base = w.split("::{closure")[0]
+        if base in entered or base in ("<map::IntoIter as Iterator>::next",):
+            rep.ok("R18.2", w, "prefix writer covered by an analysed path")
         else:
-            rep.ok("R18.2", w, "tabulated prefix writer")
+            rep.bad("R18.2", w, "uninterpreted-prefix-writer", "MIR shows that %s assigns Node::prefix but no analysed path goes through it" % w,
+                    kind="unrecognised", config=cfg)
     rep.floor("functions assigning Node::prefix (%s)" % cfg, len(writers), 4)
     rep.floor("existing-node paths checked for the stored prefix (%s)" % cfg, n, 100)
     # ---- R18.3 observers (rule of C01) and set-operation items
